@@ -600,6 +600,15 @@ func dumpEvaluation(c Case, races []RaceReport, out *Outcome, bad []string) {
 			line["leak"] = fmt.Sprintf("%d %v", out.Leak.Extra, out.Leak.Frames)
 		}
 	}
+	if len(bad) > 0 {
+		if f, err := os.OpenFile(p+".bad", os.O_APPEND|os.O_CREATE|os.O_WRONLY, 0o644); err == nil {
+			fmt.Fprintf(f, "######## %s\n%s\n", c.Kind, strings.Join(bad, "\n---\n"))
+			if out != nil && out.Panic != nil {
+				fmt.Fprintf(f, "PANIC %+v cut=%d\n", *out.Panic, out.RaceLogCut)
+			}
+			f.Close()
+		}
+	}
 	b, _ := json.Marshal(line)
 	f, err := os.OpenFile(p, os.O_APPEND|os.O_CREATE|os.O_WRONLY, 0o644)
 	if err != nil {
